@@ -29,6 +29,10 @@ pub struct Cfg {
     /// secret swap run (C17 self-composition): XOR every data byte with this
     #[serde(default)]
     pub secret_xor: u8,
+    /// every simulated task gets a brand-new OS thread instead of a pooled one (whatever the library keeps
+    /// per thread then sees many thread identities over the life of the process)
+    #[serde(default)]
+    pub fresh_threads: bool,
 }
 
 #[derive(Serialize, Deserialize, Clone, Debug, PartialEq)]
